@@ -79,6 +79,11 @@ def args : Obj → List Obj
   | .ex (.rel _ a b) | .ex (.and a b) | .ex (.or a b) => [.ex a, .ex b]
   | _ => []
 
+/-- `expr.args[1][1]`: the count of the first differentiation variable (the model's `deriv v t` is first order) -/
+def derivCount : Obj → Nat
+  | .ex (.deriv _ _) => 1
+  | _ => 0
+
 /-- `x[i]` on a tuple of expressions -/
 def item (o : Obj) (i : Nat) : Except PyErr Obj :=
   match o with
